@@ -8,6 +8,15 @@ HERE = os.path.dirname(os.path.dirname(os.path.abspath(__file__)))
 
 # pid -> (category, technique, level text, level note, design ref)
 CHECKS = {
+    "C06": (
+        "exploration",
+        "Hypothesis: grammar-based Colang 2 program generator (flow/action hierarchies, activation, when, groups) x event histories with late/early/missing action Finished events x tie-breaks; history invariants over Start/Stop events and flow statuses",
+        "After every processed event the harness checks, from the outgoing events and a read-only snapshot of the flow instances: no Stop for a never-started, "
+        "already-stopped or already-finished action; every flow instance that left the running set had all its unshared unfinished actions stopped exactly once by "
+        "the end of that step; no running flow has a non-running parent; activated flows are listening while an activator runs and gone when none does.",
+        "Activators are approximated statically (flows containing `activate X`); the finish-without-waiting exception is outside the generated domain.",
+        "DESIGN.md 4/C06",
+    ),
     "C11": (
         "exploration",
         "Hypothesis: generated Colang 2 programs with rich variables x histories x cut points x {save/restore, ageing, both}; differential oracle live continuation vs restored/aged continuation under identical tie-breaks and a controlled clock",
